@@ -156,7 +156,8 @@ def ota_history(versions, k):
                         line = C.structured_line(w, [node, 255, 4, 0, 2],
                                                  C.hex_of_words(w, [fw_id[0], fw_id[1], blk]))
                     elif kind == "set":
-                        line = C.structured_line(w, [ids[0], child, 1, 0, vt], "7")
+                        line = C.structured_line(w, [ids[0], child, 1, w.fresh_int(f"e{i}.ack", 0, 1),
+                                                     vt], "7")
                     else:
                         line = C.structured_line(w, [node, 255, 0, 0, 17], version)
                     w.info["events"].append(line)
